@@ -29,12 +29,12 @@ def _body():
 
 
 def build(params, ret, ARR, tc, style="function", order=None, category="Float", names=None,
-          anns=None):
+          anns=None, defaults=None):
     """params: list of dim strings (or None for un-annotated); ret: dim string or None.
     order: declaration order (list of indices).  Returns (callable, pnames).
     `anns` (optional): explicit annotation objects per parameter instead of dim strings."""
     key = (tuple(params), ret, ARR, tc, style, tuple(order or ()), category, tuple(names or ()),
-           tuple(id(a) for a in (anns or ())))
+           tuple(id(a) for a in (anns or ())), tuple(sorted((k, id(v)) for k, v in (defaults or {}).items())))
     if key in _cache:
         return _cache[key]
     import jaxtyping as jt
@@ -51,7 +51,11 @@ def build(params, ret, ARR, tc, style="function", order=None, category="Float", 
         g["R"] = ret if not isinstance(ret, str) else cat[ARR, ret]
 
     def ann(i):
-        return f": A{i}" if f"A{i}" in g else ""
+        a = f": A{i}" if f"A{i}" in g else ""
+        if defaults and i in defaults:
+            g[f"DFLT{i}"] = defaults[i]
+            a += f" = DFLT{i}"
+        return a
 
     if style == "function":
         args = ", ".join(f"{pnames[i]}{ann(i)}" for i in order)
